@@ -23,6 +23,7 @@ CONF = 'src/client/QXmppConfiguration.cpp'
 FEAT = 'src/base/QXmppStreamFeatures.cpp'
 STREAM = 'src/base/Stream.cpp'
 FINDING = 'C04-F1'
+FINDING2 = 'C04-F2'
 
 # every function that transmits credentials / binds / opens the session; each is a contracted stub with requires(tls_ok)
 GUARDED = ['startNonSaslAuth', 'startSasl2Auth', 'startResourceBinding', 'startSmResume', 'startSmEnable', 'openSession']
@@ -169,7 +170,7 @@ def build(work, tier):
     prof.calls.update({'op->:QXmppConfigurationPrivate*': ('expr', '{0}'), 'op->:QXmppStreamFeaturesPrivate*': ('expr', '{0}')})
     prof.hooks = [
         {'id': 'known_site_enter', 'fn': 'QXmppOutgoingClient_handleStream', 'before': r'^\s*QXmppOutgoingClient_startNonSaslAuth\(self\);', 'emit': 'gh_at_known_site = true;', 'count': 1},
-        {'id': 'known_site_leave', 'fn': 'QXmppOutgoingClient_handleStream', 'after': r'^\s*QXmppOutgoingClient_startNonSaslAuth\(self\);', 'emit': 'gh_at_known_site = false;', 'count': 1},
+        {'id': 'known_site_leave', 'fn': 'QXmppOutgoingClient_handleStream', 'after': r'^\s*QXmppOutgoingClient_startNonSaslAuth\(self\);', 'emit': 'gh_at_known_site = false; gh_known_site_hit = true;', 'count': 1},
     ]
     b = Builder('C04', work, prof)
     common = rd('common_requires.inc').strip()
@@ -219,7 +220,24 @@ def build(work, tier):
     low(OC, 'QXmppOutgoingClient::', 'handleStreamFeatures', 'QXmppOutgoingClient_handleStreamFeatures', 'QXmppOutgoingClient', 'handleStreamFeatures.spec')
     low(OC, 'QXmppOutgoingClient::', 'handleStream', 'QXmppOutgoingClient_handleStream', 'QXmppOutgoingClient', 'handleStream.spec')
     low(OC, 'QXmppOutgoingClient::', 'handlePacketReceived', 'QXmppOutgoingClient_handlePacketReceived', 'QXmppOutgoingClient', 'handlePacketReceived.spec')
+    low(OC, 'QXmppOutgoingClient::', 'handleElement', 'QXmppOutgoingClient_handleElement', 'QXmppOutgoingClient', 'handleElement.spec')
+    low(OC, 'QXmppOutgoingClient::', 'streamAckManager', 'QXmppOutgoingClient_streamAckManager', 'QXmppOutgoingClient')
+    low(OC, 'QXmppOutgoingClient::', 'iqManager', 'QXmppOutgoingClient_iqManager', 'QXmppOutgoingClient')
+    low(FEAT, 'QXmppStreamFeatures', 'isStreamFeatures', 'QXmppStreamFeatures_isStreamFeatures', None)
     low(OC, 'StarttlsManager', 'handleElement', 'StarttlsManager_handleElement', 'StarttlsManager', 'starttls_handleElement.spec')
+    lw_start = low(OC, 'QXmppOutgoingClient::', 'handleStart', 'QXmppOutgoingClient_handleStart', 'QXmppOutgoingClient', 'handleStart.spec')
+    # the continuation handleStarttls registers on <proceed/> (lambda #0 of handleStarttls)
+    fn = astx.find_function(path(OC), 'QXmppOutgoingClient::', 'handleStarttls')
+    lam = find_lambda(fn, 0)
+    sp = spec('starttls_continuation.spec')
+    orig = astx.find_function
+    astx.find_function = lambda *a, **k: lam
+    try:
+        lowered['handleStarttls_cont0'] = b.lower(Target(OC, 'QXmppOutgoingClient::', 'operator()', 'handleStarttls_cont0', this='QXmppOutgoingClient', lowerer_cls=L), sp)
+    finally:
+        astx.find_function = orig
+    b.functions[-1]['function'] = 'QXmppOutgoingClient::handleStarttls::<lambda#0> (continuation on <proceed/>)'
+    specs['handleStarttls_cont0'] = sp
     # real helpers, verified inline with their callers (no contract of their own)
     low(OC, 'QXmppOutgoingClient::', 'socket', 'QXmppOutgoingClient_socket', 'QXmppOutgoingClient')
     low(OC, 'QXmppOutgoingClient::', 'configuration', 'QXmppOutgoingClient_configuration', 'QXmppOutgoingClient')
@@ -239,33 +257,44 @@ def build(work, tier):
         raise ToolError('call-site inventory: guarded callee called from a place the unit does not cover: %s %s' % (unknown, others))
 
     # ------------------------------------------------------------------ assemble one C file
-    payload = sorted(set().union(*[getattr(x, 'need_payload', set()) for x in [lw_starttls]]))
+    payload = sorted(set().union(*[getattr(x, 'need_payload', set()) for x in [lw_starttls, lw_start]]))
     payload_defs = '\n'.join('#define XML_%s %d' % (t, i + 1) for i, t in enumerate(payload))
     conts = '\n'.join('#define CONT_%s_0 %d' % (c, i + 1) for i, c in enumerate(['QXmppOutgoingClient_handleStarttls', 'QXmppOutgoingClient_handleStreamFeatures']))
-    helpers = ['QXmppOutgoingClient_socket', 'QXmppOutgoingClient_configuration', 'XmppSocket_socket', 'QXmppOutgoingClient_disconnectFromHost', 'StarttlsProceed_fromDom'] + \
+    helpers = ['QXmppOutgoingClient_streamAckManager', 'QXmppOutgoingClient_iqManager', 'QXmppStreamFeatures_isStreamFeatures', 'QXmppOutgoingClient_socket', 'QXmppOutgoingClient_configuration', 'XmppSocket_socket', 'QXmppOutgoingClient_disconnectFromHost', 'StarttlsProceed_fromDom'] + \
               ['QXmppConfiguration_' + g for g in ('streamSecurityMode', 'useNonSASLAuthentication', 'useSASLAuthentication', 'useSasl2Authentication')] + \
               ['QXmppStreamFeatures_' + g for g in ('tlsMode', 'nonSaslAuthMode', 'bindMode', 'authMechanisms', 'sasl2Feature')]
     main_fns = ['StarttlsManager_handleElement', 'QXmppOutgoingClient_handleStarttls', 'QXmppOutgoingClient_handleStreamFeatures', 'QXmppOutgoingClient_handleStream',
-                'QXmppOutgoingClient_handlePacketReceived']
+                'QXmppOutgoingClient_handleElement', 'QXmppOutgoingClient_handlePacketReceived', 'QXmppOutgoingClient_handleStart', 'handleStarttls_cont0']
     protos = '\n'.join(lowered[f].split('\n')[0] + ';' for f in main_fns + helpers)
     ctxt = b.context()
+    # the same enum / namespace constant may be needed by functions of several TUs: emit each definition once
+    seen = set()
+    ctxt = '\n'.join(l for l in ctxt.split('\n') if not (l.startswith(('enum {', 'static const')) and (l in seen or seen.add(l))))
     body = '\n'.join(lowered[f] for f in helpers + main_fns)
     harness = '''
-void h_handleStarttls(void) { QXmppOutgoingClient *self; const QXmppStreamFeatures *features; QXmppOutgoingClient *c; gh_c = c; QXmppOutgoingClient_handleStarttls(self, features); }
-void h_handleStreamFeatures(void) { QXmppOutgoingClient *self; const QXmppStreamFeatures *features; QXmppOutgoingClient *c; gh_c = c; QXmppOutgoingClient_handleStreamFeatures(self, features); }
-void h_handleStream(void) { QXmppOutgoingClient *self; qdom el; QXmppOutgoingClient *c; gh_c = c; QXmppOutgoingClient_handleStream(self, el); }
-void h_handlePacketReceived(void) { QXmppOutgoingClient *self; qdom el; QXmppOutgoingClient *c; gh_c = c; QXmppOutgoingClient_handlePacketReceived(self, el); }
-void h_starttls_handleElement(void) { StarttlsManager *self; qdom el; StarttlsManager_handleElement(self, el); }
+/* ghost state starts from arbitrary values (globals would otherwise be zero-initialised: supportsSsl() == false only) */
+static void gh_init(void) { gh_supportsSsl = nondet_bool(); gh_sent = nondet_uint(); gh_sent_last = nondet_int(); gh_disconnects = nondet_uint(); gh_errors = nondet_uint();
+  gh_started = nondet_uint(); gh_conts = nondet_uint(); gh_ev_last = nondet_int(); gh_ev_prev = nondet_int(); gh_visit_result = nondet_int(); }
+void h_handleStarttls(void) { gh_init(); QXmppOutgoingClient *self; const QXmppStreamFeatures *features; QXmppOutgoingClient_handleStarttls(self, features); }
+void h_handleStreamFeatures(void) { gh_init(); QXmppOutgoingClient *self; const QXmppStreamFeatures *features; QXmppOutgoingClient_handleStreamFeatures(self, features); }
+void h_handleStream(void) { gh_init(); QXmppOutgoingClient *self; qdom el; QXmppOutgoingClient_handleStream(self, el); }
+void h_handlePacketReceived(void) { gh_init(); QXmppOutgoingClient *self; qdom el; QXmppOutgoingClient_handlePacketReceived(self, el); }
+void h_handleElement(void) { gh_init(); QXmppOutgoingClient *self; qdom el; QXmppOutgoingClient_handleElement(self, el); }
+void h_handleStart(void) { gh_init(); QXmppOutgoingClient *self; QXmppOutgoingClient_handleStart(self); }
+void h_starttls_cont(void) { gh_init(); QXmppOutgoingClient *self; handleStarttls_cont0(self); }
+void h_starttls_handleElement(void) { gh_init(); StarttlsManager *self; qdom el; StarttlsManager_handleElement(self, el); }
 '''
     c = '\n'.join(['#include "opaque.h"', prof.literal_ids.table(), rd('model.h'), records, ctxt, payload_defs, conts, b.subst(rd('callees.h')),
-                   'int QXmppOutgoingClient_handleElement(QXmppOutgoingClient *self, qdom nodeRecv);', protos, body, harness])
+                   protos, body, harness])
     f = b.write('c04.c', c)
 
     stubs = ['XmppSocket_sendData', 'XmppSocket_disconnectFromHost', 'QXmppOutgoingClient_setError', 'qtask_then', 'StarttlsManager_task',
              'setListener_StarttlsManager', 'setListener_SaslManager'] + ['QXmppOutgoingClient_' + g for g in GUARDED] + ['SaslManager_authenticate'] + \
             [m + '_handleElement' for m in ('NonSaslAuthManager', 'SaslManager', 'Sasl2Manager', 'BindManager', 'C2sStreamManager')] + \
-            ['C2sStreamManager_onStreamClosed', 'C2sStreamManager_onStreamFeatures', 'C2sStreamManager_canRequestResume', 'C2sStreamManager_canRequestEnable',
-             'CsiManager_onStreamFeatures', 'PingManager_onDataReceived']
+            ['C2sStreamManager_onStreamClosed', 'C2sStreamManager_onStreamStart', 'C2sStreamManager_onStreamFeatures', 'C2sStreamManager_canRequestResume', 'C2sStreamManager_canRequestEnable',
+             'CsiManager_onStreamFeatures', 'PingManager_onDataReceived', 'StreamAckManager_handleStanza', 'OutgoingIqManager_handleStanza',
+             'QXmppStreamFeatures_parse', 'StreamErrorElement_fromDom', 'QXmppOutgoingClient_handleStreamError', 'QXmppOutgoingClient_elementReceived',
+             'QXmppOutgoingClient_handleStanza']
 
     proofs = []
 
@@ -282,6 +311,10 @@ void h_starttls_handleElement(void) { StarttlsManager *self; qdom el; StarttlsMa
 
     proof('starttls_handleElement', 'h_starttls_handleElement', 'StarttlsManager_handleElement', [],
           note='loop-free; every element (abstract DOM); StarttlsProceed::fromDom lowered and inlined')
+    proof('handleStart', 'h_handleStart', 'QXmppOutgoingClient_handleStart', stubs,
+          note='loop-free; every (re)started stream resets the listener to the client itself before anything is received')
+    proof('handleStarttls.continuation', 'h_starttls_cont', 'handleStarttls_cont0', stubs,
+          note='loop-free; the continuation run on <proceed/> only starts the TLS handshake (frame: sends nothing, starts no step)')
     proof('handleStarttls', 'h_handleStarttls', 'QXmppOutgoingClient_handleStarttls', stubs,
           note='loop-free; every socket state, security mode, offered TLS mode, supportsSsl value')
     proof('handleStreamFeatures', 'h_handleStreamFeatures', 'QXmppOutgoingClient_handleStreamFeatures', stubs + ['QXmppOutgoingClient_handleStarttls'],
@@ -290,32 +323,90 @@ void h_starttls_handleElement(void) { StarttlsManager *self; qdom el; StarttlsMa
           note='loop-free; call site startNonSaslAuth@handleStream (finding %s) exempt, everything else checked' % FINDING)
     proof('handleStream.finding', 'h_handleStream', 'QXmppOutgoingClient_handleStream', stubs, defines=('FINDING_ONLY',), finding=FINDING,
           note='same contract without the exemption: fails at the recorded call site')
+    proof('handleElement', 'h_handleElement', 'QXmppOutgoingClient_handleElement', stubs + ['QXmppOutgoingClient_handleStreamFeatures'],
+          note='loop-free; handleStreamFeatures replaced by its (verified) contract; stanza dispatch (finding %s) exempt, everything else checked' % FINDING2)
+    proof('handleElement.finding', 'h_handleElement', 'QXmppOutgoingClient_handleElement', stubs + ['QXmppOutgoingClient_handleStreamFeatures'],
+          defines=('FINDING_ONLY',), finding=FINDING2, note='same contract without the exemption: fails at the stanza-dispatch call sites')
     proof('handlePacketReceived', 'h_handlePacketReceived', 'QXmppOutgoingClient_handlePacketReceived',
           stubs + ['StarttlsManager_handleElement', 'QXmppOutgoingClient_handleElement'],
           note='loop-free; std::visit over the listener variant lowered to a switch; listeners replaced by contracts')
 
+    native_note = ''
+    if tier == 'thorough':
+        res = []
+        for fid, mode in ((FINDING, 'versionless'), (FINDING2, 'iq-before-tls'), ('control', 'control')):
+            rc, out = _run_script(mode)
+            res.append('%s/%s: %s' % (fid, mode, 'REPRODUCED' if (rc == 0 and 'NOT-REPRODUCED' not in out) else ('NOT-REPRODUCED' if rc == 1 else 'replay failed')))
+        native_note = '; native replay against the real library: ' + ', '.join(res)
     unit_text = rd('model.h') + rd('callees.h') + open(os.path.join(QT, 'opaque.h')).read()
     return {
         'proofs': proofs, 'functions': b.functions, 'dropped': b.dropped, 'fired': b.fired,
         'hooks': [h['id'] + ': ' + h['emit'] for h in prof.hooks] + ['visit_result: gh_visit_result = <result of std::visit> (emitted by the visit lowering)'],
         'assumed': ASSUMED, 'assumes': scan_assumes(unit_text), 'not_covered': NOT_COVERED,
-        'explanation': 'call-site inventory of the guarded callees: %s' % ', '.join('%s%s->%s' % (s[0], '[continuation]' if s[1] else '', s[2]) for s in sites),
+        'explanation': 'call-site inventory of the guarded callees: %s' % ', '.join('%s%s->%s' % (s[0], '[continuation]' if s[1] else '', s[2]) for s in sites) + native_note,
     }
 
 
 ASSUMED = [
     'A-QSSL (units/C04/model.h): isEncrypted() reads one flag of the socket; startClientEncryption() transmits no XMPP data; supportsSsl() is a fixed arbitrary boolean',
-    'XmppSocket::sendData / disconnectFromHost are the only ways bytes / a close reach the socket from the verified functions (event counters gh_sent, gh_disconnects); payloads are classified by the C++ type passed to serializeXml',
-    'guarded callees (startNonSaslAuth, startSasl2Auth, SaslManager::authenticate, startResourceBinding, startSmResume, startSmEnable, openSession) and the listeners NonSasl/Sasl/Sasl2/Bind/C2sStreamManager::handleElement are replaced by contracts requires(tls_ok); their bodies are not verified here',
-    'setListener<T>() installs alternative T as current listener and returns it (two-line template in QXmppOutgoingClient_p.h, replaced by contract)',
-    'C2sStreamManager::{onStreamClosed,onStreamFeatures,canRequestResume,canRequestEnable}, CsiManager::onStreamFeatures, PingManager::onDataReceived, setError transmit nothing (contracts with assigns of their own state only)',
-    'abstract DOM and opaque strings (qtmodel/opaque.h)',
-    'tls_ok is stable between the start of a guarded step and the run of the continuation it registered (encryption is not switched off on a live connection; the configuration is not changed during negotiation)',
+    'XmppSocket::sendData / disconnectFromHost are the only ways bytes / a close reach the socket from the verified functions (ghost event log); payloads are classified by the C++ type passed to serializeXml',
+    'guarded callees (startNonSaslAuth, startSasl2Auth, SaslManager::authenticate, startResourceBinding, startSmResume, startSmEnable, openSession), the listeners NonSasl/Sasl/Sasl2/Bind/C2sStreamManager::handleElement and the stanza dispatch (elementReceived signal, handleStanza) are replaced by contracts requires(tls_ok); their bodies are not verified here',
+    'setListener<T>() installs alternative T as current listener and returns it (two-line template in QXmppOutgoingClient_p.h, replaced by contract); StarttlsManager::task() returns the task of its promise',
+    'C2sStreamManager::{onStreamClosed,onStreamStart,onStreamFeatures,canRequestResume,canRequestEnable}, CsiManager::onStreamFeatures, PingManager::onDataReceived, setError, handleStreamError, QXmppStreamFeatures::parse, StreamErrorElement::fromDom transmit nothing (contracts that assign their own state / the error and disconnect counters only)',
+    'StreamAckManager::handleStanza transmits at most stream-management <a/> nonzas (no stanza, no credential); OutgoingIqManager::handleStanza only completes a pending request (its continuation belongs to the requester)',
+    'abstract DOM and opaque strings (qtmodel/opaque.h); QStringList as an opaque value with 0 = empty; std::optional / std::variant values as tagged structs',
+    'tls_ok is stable between the start of a guarded step and the run of the continuation it registered (encryption is not switched off on a live connection; the configuration is not changed during negotiation); handleStart runs before anything is received on a (re)started stream',
 ]
 NOT_COVERED = [
     'stanzas the application pushes through sendPacket before the session is open',
-    'what Qt\'s TLS layer does after startClientEncryption (certificate checks, ignoreSslErrors)',
-    'bodies of the guarded callees and of the continuations they register (they call further guarded callees under the stability assumption)',
-    'QXmppOutgoingClient::handleElement (listener = client itself): stanza dispatch to handleStanza / elementReceived before TLS is not covered by an obligation',
-    'LegacySSL / direct-TLS connections (encrypted from the first byte)',
+    "what Qt's TLS layer does after startClientEncryption (certificate checks, ignoreSslErrors)",
+    'bodies of the guarded callees and of the continuations they register (the continuations call further guarded callees; listed by the call-site inventory; covered only by the stability assumption)',
+    'the continuation of SaslManager::authenticate in handleStreamFeatures (restarts the stream on success, disconnects on failure) is registered but not verified',
+    'the bare JID disclosed in the from attribute of the initial stream header (sent before TLS by design of handleStart; observed in the native replay)',
+    'LegacySSL / direct-TLS connections (encrypted from the first byte); reconnect / redirect logic',
 ]
+
+
+# ---------------------------------------------------------------------- native replay (real library, scripted loopback server)
+# which server scripts of replay_cleartext.cpp exercise the code a failed obligation belongs to
+SCRIPTS = {
+    'QXmppOutgoingClient_handleStream': ['versionless'],
+    'QXmppOutgoingClient_handleElement': ['iq-before-tls', 'features-starttls', 'features-nostarttls'],
+    'QXmppOutgoingClient_handleStarttls': ['features-starttls', 'features-nostarttls'],
+    'QXmppOutgoingClient_handleStreamFeatures': ['features-starttls', 'features-nostarttls'],
+    'QXmppOutgoingClient_handlePacketReceived': ['starttls-failure', 'features-starttls', 'features-nostarttls', 'iq-before-tls'],
+    'StarttlsManager_handleElement': ['starttls-failure'],
+    'QXmppOutgoingClient_handleStart': ['control'],
+    'handleStarttls_cont0': ['control'],
+}
+_native_cache = {}
+
+
+def _run_script(mode):
+    if mode not in _native_cache:
+        from vlib import native
+        try:
+            rc, out = native.run_driver(os.path.join(HERE, 'replay_cleartext.cpp'), args=[mode], timeout=60)
+        except Exception as e:   # build problem of the working tree: no verdict from the replay
+            rc, out = 2, 'native replay not possible: %s' % e
+        _native_cache[mode] = (rc, out)
+    return _native_cache[mode]
+
+
+def find_input(unit, p, o, lab, work):
+    """a failed obligation of a negotiation handler is replayed with the server scripts that reach that handler: the real
+    client (TLSRequired) must not put anything but the stream header and <starttls/> on the unencrypted wire"""
+    for mode in SCRIPTS.get(p.enforce or '', []):
+        rc, out = _run_script(mode)
+        if rc == 0 and 'REPRODUCED' in out and 'NOT-REPRODUCED' not in out:
+            return {'inputs': {'server_script': mode, 'client_configuration': 'streamSecurityMode=TLSRequired, everything else default'},
+                    'reproduced': True, 'native_output': out[-3000:]}
+    return None
+
+
+def native_replay(rp):
+    mode = (rp.get('inputs') or {}).get('server_script')
+    if not mode:
+        return False, 'replay file names no server script'
+    rc, out = _run_script(mode)
+    return (rc == 0 and 'NOT-REPRODUCED' not in out), out
